@@ -827,10 +827,15 @@ def gen_project_is_root_case(rng):
     return s.text(), {"wprefix": "/w/proj/"}
 
 
+# journal stamps as an administrator writes them: none, seconds, constant text, text around the seconds, and
+# date-like ones with slashes (what must not contain a slash is a VERSION, which becomes a file name; a journal stamp may)
+JPATS = ["", "%s", "x", "t%s-", "d/%s", "1/2/%s %%"]
+
+
 def gen_journal_case(rng):
     """C19: every choice of labels (absent, empty, text) and timestamp patterns, short writes at journal writes"""
     labels = [rng.choice([None, "", "L%d" % i]) for i in range(7)]
-    jpat = rng.choice(["", "%s", "x", "t%s-"])
+    jpat = rng.choice(JPATS)
     cfg = base_cfg(deb=rng.choice([0, 1]), ev=labels, jpat=jpat)
     s = Script()
     setup_world(s, cfg)
@@ -857,7 +862,7 @@ def gen_journal_case(rng):
             # hot reload that keeps the journal where it is but changes how its lines are stamped (and the labels)
             import copy as _copy
             cfg = _copy.deepcopy(cfg)
-            cfg.jpat = rng.choice([p for p in ["", "%s", "x", "t%s-"] if p != cfg.jpat])
+            cfg.jpat = rng.choice([p for p in JPATS if p != cfg.jpat])
             s.config(cfg)
             s.write(rng.choice([3, 4]), CFG_PATH)
         else:
